@@ -799,6 +799,261 @@ func (h *c02Harness) runHistory(r *vg.Rand, maxSteps int) {
 	}
 }
 
+// c02Plan is what the environment does in one round of a lock story
+type c02Plan struct {
+	propose string // "A", "B", "valid", "none", "" = random
+	target  string // "A", "B", "nil", "locked", "" = random
+	mode    int    // 0 whole polka now, 2 all but one now / one late, 3 split, 4 all late, 5 polka completes after the precommit, -1 random
+	lateNow bool   // deliver every held-back batch before this round's proposal
+	commit  bool   // the others precommit the target (else nil)
+}
+
+// runLockStory is a round-structured policy aimed at the lock rules: in every round a proposal
+// for one of two blocks (or the valid block, or none), prevotes of the other validators towards
+// one target with some of them held back, usually no commit; held-back votes arrive in later
+// rounds (stale polkas), and polkas may complete after the node has already precommitted.
+// A script fixes the first rounds (lock, stale polka in between, relock, ...); afterwards, and
+// without a script, the choices are random.
+func (h *c02Harness) runLockStory(r *vg.Rand, maxSteps int, script []c02Plan) {
+	var late [][]*types.Vote // held-back votes, one batch per round
+	fireStep := func(step cstypes.RoundStepType) bool {
+		cs := h.cs
+		s := h.ticker.scheduled
+		for i := len(s) - 1; i >= 0; i-- {
+			if s[i].Height == cs.Height && s[i].Round == cs.Round && s[i].Step == step {
+				h.fire(s[i], "timeout")
+				return true
+			}
+		}
+		return false
+	}
+	bidOf := func(e *c02Block) types.BlockID {
+		return types.BlockID{Hash: e.block.Hash(), PartSetHeader: e.parts.Header()}
+	}
+	sendBatch := func(i int) {
+		b := late[i]
+		late = append(late[:i], late[i+1:]...)
+		for _, v := range b {
+			if v.Height == h.cs.Height && !h.panicked {
+				h.sendVote(v, "p3", "vote/late")
+			}
+		}
+	}
+	someLate := func(pct int) {
+		if len(late) > 0 && r.Chance(pct) && !h.panicked {
+			sendBatch(r.Intn(len(late)))
+		}
+	}
+	polkaAt := map[string]int32{} // last round in which +2/3 of the others were asked to prevote the block
+	for len(h.steps) < maxSteps && !h.panicked {
+		before := len(h.steps)
+		cs := h.cs
+		if cs.Step == cstypes.RoundStepNewHeight {
+			fireStep(cstypes.RoundStepNewHeight)
+			late, polkaAt = nil, map[string]int32{}
+			continue
+		}
+		c := h.candidates(r)
+		if len(c) < 2 {
+			break
+		}
+		height, round := cs.Height, cs.Round
+		plan := c02Plan{mode: -1}
+		if height == 1 && int(round) < len(script) {
+			plan = script[round]
+		}
+		others := h.others()
+		A, B := c[0], c[1]
+		pick := func() *c02Block {
+			if r.Bool() {
+				return A
+			}
+			return B
+		}
+		named := func(n string) *c02Block {
+			switch n {
+			case "A":
+				return A
+			case "B":
+				return B
+			}
+			return pick()
+		}
+		if plan.lateNow {
+			for len(late) > 0 && !h.panicked {
+				sendBatch(0)
+			}
+		} else if plan.mode < 0 {
+			someLate(35)
+		}
+		// proposal
+		h.ensureProposers()
+		signer := int(h.props[height][int(round)%24])
+		skipProp := plan.propose == "none" || (plan.propose == "" && r.Chance(20))
+		if signer != h.me && !skipProp && cs.Step <= cstypes.RoundStepPropose {
+			e := named(plan.propose)
+			if cs.ValidBlock != nil && (plan.propose == "valid" || (plan.propose == "" && r.Chance(50))) {
+				if v := h.byPSH[string(cs.ValidBlockParts.Header().Hash)]; v != nil {
+					e = v
+				}
+			}
+			polr := int32(-1)
+			if pr, ok := polkaAt[string(e.block.Hash())]; ok && (plan.propose != "" || r.Chance(60)) {
+				polr = pr
+			}
+			h.sendProposal(signer, height, round, polr, bidOf(e), false, "story/proposal")
+			for i := 0; i < int(e.parts.Total()) && !h.panicked; i++ {
+				h.sendPart(height, round, e, i, "story/part")
+			}
+		}
+		if h.cs.Height != height || h.panicked {
+			continue
+		}
+		if h.cs.Step <= cstypes.RoundStepPropose {
+			fireStep(cstypes.RoundStepPropose)
+		}
+		// prevotes of the others
+		var target types.BlockID
+		tsel := plan.target
+		if tsel == "" {
+			tsel = []string{"nil", "locked", "locked", "", "", ""}[r.Intn(6)]
+		}
+		switch tsel {
+		case "nil":
+		case "locked":
+			if cs.LockedBlock != nil {
+				target = types.BlockID{Hash: cs.LockedBlock.Hash(), PartSetHeader: cs.LockedBlockParts.Header()}
+			} else {
+				target = bidOf(pick())
+			}
+		default:
+			target = bidOf(named(tsel))
+		}
+		votes := make([]*types.Vote, 0, len(others))
+		for _, i := range others {
+			votes = append(votes, h.mkVote(r, i, tmproto.PrevoteType, height, round, target))
+		}
+		if !target.IsZero() {
+			polkaAt[string(target.Hash)] = round
+		}
+		mode := plan.mode
+		if mode < 0 {
+			mode = r.Intn(7)
+		}
+		afterPrecommit := []*types.Vote{}
+		switch mode {
+		case 0, 1: // the whole polka now
+			for _, v := range votes {
+				h.sendVote(v, "p2", "story/prevote")
+			}
+		case 2: // all but one now, the last one much later
+			for _, v := range votes[1:] {
+				h.sendVote(v, "p2", "story/prevote")
+			}
+			late = append(late, votes[:1])
+		case 3: // split: half for the target, the others for nil or the other block
+			for k, v := range votes {
+				if k%2 == 1 {
+					o := types.BlockID{}
+					if r.Bool() {
+						o = bidOf(pick())
+					}
+					v = h.mkVote(r, others[k], tmproto.PrevoteType, height, round, o)
+				}
+				h.sendVote(v, "p2", "story/prevote")
+			}
+		case 4: // nothing now, everything later
+			late = append(late, votes)
+		default: // +2/3 of anything now, the polka completes only after the node has precommitted
+			if len(votes) >= 2 {
+				afterPrecommit = votes[:1]
+				for _, v := range votes[1:] {
+					h.sendVote(v, "p2", "story/prevote")
+				}
+			}
+		}
+		if h.cs.Height != height || h.panicked {
+			continue
+		}
+		if h.cs.Round == round && h.cs.Step <= cstypes.RoundStepPrevoteWait {
+			fireStep(cstypes.RoundStepPrevoteWait)
+		}
+		for _, v := range afterPrecommit {
+			h.sendVote(v, "p2", "story/prevote-after-precommit")
+		}
+		if plan.mode < 0 {
+			someLate(30)
+		}
+		if h.cs.Height != height || h.panicked {
+			continue
+		}
+		// precommits of the others: mostly nil (the round fails), sometimes a commit
+		pc := types.BlockID{}
+		if (plan.commit || (plan.mode < 0 && r.Chance(12))) && !target.IsZero() {
+			pc = target
+		}
+		for _, i := range others {
+			if h.cs.Height != height || h.panicked {
+				break
+			}
+			h.sendVote(h.mkVote(r, i, tmproto.PrecommitType, height, round, pc), "p2", "story/precommit")
+		}
+		if h.cs.Height == height && h.cs.Round == round && !h.panicked {
+			fireStep(cstypes.RoundStepPrecommitWait)
+		}
+		if len(h.steps) == before { // nothing moved: any scheduled timeout
+			if s := h.ticker.scheduled; len(s) > 0 {
+				h.fire(s[len(s)-1], "timeout")
+			} else {
+				break
+			}
+		}
+	}
+}
+
+// c02Scripts: openings for lock stories (the rest of the story is random)
+func c02Script(r *vg.Rand) ([]c02Plan, string) {
+	gap := func() []c02Plan { // 0..2 uneventful rounds: no proposal, nil polka
+		var g []c02Plan
+		for k := r.Intn(3); k > 0; k-- {
+			g = append(g, c02Plan{propose: "none", target: "nil", mode: 0})
+		}
+		return g
+	}
+	lock := c02Plan{propose: "A", target: "A", mode: 0}
+	switch r.Intn(5) {
+	case 0: // lock A; polka for B in a later round held back; relock A; the stale polka arrives; B proposed
+		s := []c02Plan{lock}
+		s = append(s, gap()...)
+		s = append(s, c02Plan{propose: "none", target: "B", mode: 4})
+		s = append(s, gap()...)
+		s = append(s, c02Plan{propose: "A", target: "locked", mode: 0})
+		s = append(s, c02Plan{propose: "B", target: "B", mode: 3, lateNow: true})
+		s = append(s, c02Plan{propose: "B", target: "B", mode: 0, commit: true})
+		return s, "relock-then-stale-polka"
+	case 1: // lock A; polka for B completes in the current round after the precommit; B proposed again
+		s := []c02Plan{lock}
+		s = append(s, gap()...)
+		s = append(s, c02Plan{propose: "none", target: "B", mode: 5})
+		s = append(s, c02Plan{propose: "B", target: "B", mode: 0, commit: r.Bool()})
+		return s, "polka-after-precommit"
+	case 2: // lock A; later polka for B seen in time: unlock and follow
+		s := []c02Plan{lock}
+		s = append(s, gap()...)
+		s = append(s, c02Plan{propose: "B", target: "B", mode: 0})
+		s = append(s, c02Plan{propose: "A", target: "A", mode: 0})
+		return s, "lock-change"
+	case 3: // lock A; an OLD polka for B (round before the lock) arrives late; B proposed
+		s := []c02Plan{{propose: "B", target: "B", mode: 4}}
+		s = append(s, gap()...)
+		s = append(s, lock)
+		s = append(s, c02Plan{propose: "B", target: "nil", mode: 0, lateNow: true})
+		s = append(s, c02Plan{propose: "B", target: "B", mode: 3})
+		return s, "older-polka-after-lock"
+	}
+	return nil, "random"
+}
+
 func TestVerifC02Consensus(t *testing.T) {
 	root := vg.NewRand(vg.Seed() ^ 0xc02)
 	cs := vg.NewCases("C02", "c02_consensus", "TM.C02.Exec")
@@ -833,7 +1088,14 @@ func TestVerifC02Consensus(t *testing.T) {
 		meValidator := !r.Chance(8)
 		skip := r.Bool()
 		h := c02NewHarness(r, n, powers, meValidator, skip)
-		h.runHistory(r, maxSteps)
+		story := k%3 == 2 && meValidator && n >= 3
+		if story {
+			script, name := c02Script(r)
+			h.kinds["story/"+name]++
+			h.runLockStory(r, maxSteps+40, script)
+		} else {
+			h.runHistory(r, maxSteps)
+		}
 		decided += h.decided
 		if h.panicked {
 			panics++
@@ -867,7 +1129,11 @@ func TestVerifC02Consensus(t *testing.T) {
 		for i, s := range h.descr {
 			fmt.Fprintf(&d, " [%d] %s;", i, s)
 		}
-		cs.Add(id, fmt.Sprintf("history/n=%d/decided=%d", n, h.decided), len(h.steps) >= 10, term, d.String())
+		lbl := "history"
+		if story {
+			lbl = "lockstory"
+		}
+		cs.Add(id, fmt.Sprintf("%s/n=%d/decided=%d", lbl, n, h.decided), len(h.steps) >= 10, term, d.String())
 	}
 	cs.Notes = append(cs.Notes, fmt.Sprintf("heights decided in total: %d, histories ending in a panic: %d", decided, panics))
 	if err := cs.Write(); err != nil {
